@@ -97,7 +97,41 @@ func cmdJSON(o *Out, line string, f []string) {
 	}
 	ctx, cancel := context.WithCancel(context.Background())
 	defer cancel()
-	out, err := metrics.CollectJSONStream(ctx, metrics.CollectJSONOptions{InputSource: &slowReader{r: &text, every: flushMs}, SampleCount: n, FlushInterval: flush})
+	opts := metrics.CollectJSONOptions{InputSource: &slowReader{r: &text, every: flushMs}, SampleCount: n, FlushInterval: flush}
+	files := len(sec[0]) > 2 && sec[0][2] == "files"
+	var dir string
+	if files {
+		// the data goes to <prefix>.0, <prefix>.1, ... at every flush; the input arrives line by line with pauses so
+		// that flushes happen while the stream is still open. What was delivered = the files in order.
+		var derr error
+		if dir, derr = os.MkdirTemp("", "verif-json-"); derr != nil {
+			panic(derr)
+		}
+		defer os.RemoveAll(dir)
+		opts.OutputFilePrefix = filepath.Join(dir, "out")
+		opts.InputSource = &slowReader{r: &text, every: flushMs, lineWise: true}
+	}
+	out, err := metrics.CollectJSONStream(ctx, opts)
+	if files && err == nil {
+		var all []byte
+		nfiles := 0
+		for k := 0; ; k++ {
+			b, rerr := os.ReadFile(fmt.Sprintf("%s.%d", opts.OutputFilePrefix, k))
+			if rerr != nil {
+				break
+			}
+			nfiles++
+			all = append(all, b...)
+		}
+		out = append(all, out...)
+		nb := "1"
+		if nfiles == 0 {
+			nb = "0"
+		} else if nfiles > 1 {
+			nb = "many"
+		}
+		o.count("json-files-" + nb)
+	}
 	if err != nil {
 		o.emit(line, "err")
 	} else {
@@ -164,11 +198,20 @@ func scannerRefuses(text []byte) bool {
 
 // slowReader delivers the text in small pieces with pauses so that flush timers fire in between
 type slowReader struct {
-	r     *bytes.Buffer
-	every int
+	r        *bytes.Buffer
+	every    int
+	lineWise bool
 }
 
 func (s *slowReader) Read(p []byte) (int, error) {
+	if s.lineWise {
+		time.Sleep(time.Duration(s.every) * time.Millisecond * 2 / 3)
+		b := s.r.Bytes()
+		if i := bytes.IndexByte(b, '\n'); i >= 0 && i+1 < len(p) {
+			p = p[:i+1]
+		}
+		return s.r.Read(p)
+	}
 	if s.every > 0 {
 		time.Sleep(time.Duration(s.every) * time.Millisecond / 2)
 		if len(p) > 4096 {
@@ -250,6 +293,10 @@ func streamJSON(o *Out, rng *rand.Rand, thorough bool, _ []string) {
 			toks = append(toks, "NOEOL")
 		}
 		run(o, fmt.Sprintf("json %d %d | %s", 1+rng.Intn(6), flush, strings.Join(toks, " ")))
+		if i%3 == 0 {
+			// the same text delivered to files, with flushes while the stream is open
+			run(o, fmt.Sprintf("json %d %d files | %s", 1+rng.Intn(6), 1+rng.Intn(3), strings.Join(toks, " ")))
+		}
 	}
 	// the last line without a newline: well-formed, malformed, too long; a single unterminated line
 	run(o, fmt.Sprintf("json 3 0 | %s %s %s NOEOL", hx(mkDoc(0, 1)), hx(mkDoc(0, 2)), hx(mkDoc(0, 3))))
